@@ -431,7 +431,7 @@ package graphql
 //@ extern func container/list::List.Remove
 //@   assigns class:list.
 //@   ensures l.len == old(l.len) - 1 || l.len == old(l.len)
-//@   ensures old(l.len) > 0 ==> l.len >= 0
+//@   ensures l.len >= 0
 //@ extern func container/list::List.Back
 //@   pure
 //@   ensures l.len > 0 ==> result != nil
@@ -454,6 +454,7 @@ package graphql
 //@   requires c != nil && !held(&c.mu)
 //@   assigns class:list., class:atomic., class:M|string|*list.Element
 //@   ensures !held(&c.mu)
+//@   ensures old(c.order.len) >= 0 ==> c.order.len >= 0
 //@   ensures !old(has(c.entries, key)) ==> !result1
 //@   ensures result1 ==> old(has(c.entries, key)) && old(as(c.entries[key].Value, "*graphql.planCacheItem").e.schema) == schema
 //@   ensures result1 ==> result0 == old(as(c.entries[key].Value, "*graphql.planCacheItem").e.result)
